@@ -214,6 +214,7 @@ def _fail_record(case, v: Violation):
         "expected": v.expected,
         "extra": v.extra,
         "hashseed": os.environ.get("PYTHONHASHSEED", "0"),
+        "optimize": bool(sys.flags.optimize),
     }
 
 
@@ -235,10 +236,20 @@ class Pools:
         old = os.environ.get("PYTHONHASHSEED")
         self.pools = []
         try:
-            for h in seeds:
+            for i, h in enumerate(seeds):
                 os.environ["PYTHONHASHSEED"] = str(h)
+                # the last pool also runs with assertions stripped (python -O): a legitimate way to run the package,
+                # under which nothing it computes may depend on an `assert` statement
+                if i == len(seeds) - 1 and len(seeds) > 1:
+                    os.environ["PYTHONOPTIMIZE"] = "1"
+                    # third-party sources are recompiled for -O; their SyntaxWarnings (ete3) are not ours to report
+                    os.environ["PYTHONWARNINGS"] = "ignore::SyntaxWarning"
                 self.pools.append(ctx.Pool(per))
+                os.environ.pop("PYTHONOPTIMIZE", None)
+                os.environ.pop("PYTHONWARNINGS", None)
         finally:
+            os.environ.pop("PYTHONOPTIMIZE", None)
+            os.environ.pop("PYTHONWARNINGS", None)
             if old is None:
                 os.environ.pop("PYTHONHASHSEED", None)
             else:
@@ -483,7 +494,7 @@ def run_property(prop_id, tier, seed):
                 fh.write(jdump({
                     "property": prop_id, "clause": clause, "case": rec["case"],
                     "observed": rec["observed"], "expected": rec["expected"], "extra": rec["extra"],
-                    "seed": seed, "tier": tier, "hashseed": rec.get("hashseed", "0"),
+                    "seed": seed, "tier": tier, "hashseed": rec.get("hashseed", "0"), "optimize": bool(rec.get("optimize")),
                 }))
         n_viol += 1
         out_lines.append(f"VIOLATION property={prop_id} replay={path}")
@@ -588,9 +599,13 @@ def _short(obj, n=300):
 def replay(prop_id, path):
     rep = load_replay(path)
     want = str(rep.get("hashseed", os.environ.get("PYTHONHASHSEED", "0")))
-    if want != os.environ.get("PYTHONHASHSEED", "0"):
-        # the case was found by a worker running under another PYTHONHASHSEED: replay it under the same one
+    want_opt = bool(rep.get("optimize"))
+    if want != os.environ.get("PYTHONHASHSEED", "0") or want_opt != bool(sys.flags.optimize):
+        # the case was found by a worker running under another PYTHONHASHSEED / with -O: replay it the same way
         env = dict(os.environ, PYTHONHASHSEED=want)
+        env.pop("PYTHONOPTIMIZE", None)
+        if want_opt:
+            env["PYTHONOPTIMIZE"] = "1"
         os.execve(sys.executable, [sys.executable, "-m", "harness.main", prop_id, "--replay", path], env)
     mod = load(prop_id)
     try:
